@@ -323,12 +323,6 @@ Section Ext.
 Variable T : tables.
 Variable x : bytes.
 
-Lemma ext_frame_eq o o1 : same_frame o o1 ->
-  ext x o1 = {| o_immutable := o_immutable o; o_payload := o_payload o ++ x; o_payloadi := be (o_payload o ++ x);
-                o_labelmsm := o_labelmsm o; o_unknown := o_unknown o; o_satmap := o_satmap o1; o_cellmap := o_cellmap o1;
-                o_attrs := o_attrs o1 |}.
-Proof. intros [A [B [C [D E]]]]. unfold ext. rewrite A, C, D, E. reflexivity. Qed.
-
 Lemma setattr_ext o k v : setattr (ext x o) k v = omap (ext x) (setattr o k v).
 Proof. unfold setattr. cbn [o_immutable ext]. destruct (o_immutable o); reflexivity. Qed.
 
